@@ -439,6 +439,13 @@ func runCheck(prop, tier string, verbose, keep bool, only string) int {
 			return ts
 		}
 		verdicts := symex.Discharge(res.VCs, extra, opts)
+		if verbose {
+			vs := append([]symex.Verdict(nil), verdicts...)
+			sort.Slice(vs, func(i, j int) bool { return vs[i].Seconds > vs[j].Seconds })
+			for i := 0; i < len(vs) && i < 8; i++ {
+				fmt.Fprintf(os.Stderr, "  slow: %-40s %-8s %6.1fs %s choices=%v\n", vs[i].VC.Label, vs[i].Res, vs[i].Seconds, vs[i].Solver, vs[i].VC.Choices)
+			}
+		}
 		vByLabel := map[string][]symex.Verdict{}
 		for _, v := range verdicts {
 			vByLabel[v.VC.Label] = append(vByLabel[v.VC.Label], v)
@@ -573,6 +580,7 @@ func runCheck(prop, tier string, verbose, keep bool, only string) int {
 			"solvers":                       symex.SortedKeys(smt.StatSolvers),
 			"cross_checked":                 crossChecked,
 			"known_findings_seen":           knownSeen,
+			"kernel_lemmas":                 smt.Lemmas(),
 			"inconclusive":                  inconclusive,
 			"load_s":                        round2(loadS),
 			"notes":                         notes,
